@@ -340,9 +340,13 @@ DoneChoosingBodySource:
 		reinstateSlash = true
 	}
 
-	urlPath := path.Join(basePathURL.Path, pathPatternURL.Path)
-	for k, v := range r.pathParams {
-		urlPath = strings.ReplaceAll(urlPath, "{"+k+"}", url.PathEscape(v))
+	pathTemplate := path.Join(basePathURL.Path, pathPatternURL.Path)
+	urlPath := r.expandPathTemplate(pathTemplate)
+	if u, perr := url.Parse(urlPath); perr != nil || u.EscapedPath() != urlPath {
+		// The literal text of the base path or of the pattern is not valid in an escaped path (a blank,
+		// a non-ASCII letter, a bare '%'): net/url would then re-encode the whole path from its decoded form,
+		// and the escapes of the parameter values would be lost. Escape that text as well.
+		urlPath = r.expandPathTemplate(escapeTemplateLiterals(pathTemplate))
 	}
 	if reinstateSlash {
 		urlPath += "/"
@@ -503,4 +507,26 @@ func (r *request) GetBodyParam() interface{} {
 func (r *request) SetTimeout(timeout time.Duration) error {
 	r.timeout = timeout
 	return nil
+}
+
+// expandPathTemplate replaces the placeholders of a path template by the escaped parameter values.
+func (r *request) expandPathTemplate(template string) string {
+	for k, v := range r.pathParams {
+		value := url.PathEscape(v)
+		template = strings.ReplaceAll(template, "{"+k+"}", value)
+		if escapedName := url.PathEscape(k); escapedName != k {
+			// the name as it reads in a template whose literal text has been escaped
+			template = strings.ReplaceAll(template, "{"+escapedName+"}", value)
+		}
+	}
+	return template
+}
+
+// escapeTemplateLiterals percent-escapes the segments of a path template, except for the braces of its placeholders.
+func escapeTemplateLiterals(template string) string {
+	segments := strings.Split(template, "/")
+	for i, segment := range segments {
+		segments[i] = strings.NewReplacer("%7B", "{", "%7D", "}").Replace(url.PathEscape(segment))
+	}
+	return strings.Join(segments, "/")
 }
